@@ -124,12 +124,16 @@ def run(ctx):
     proofs_ok = ctx.build_and_audit()
     spec_fail = []
     ladder = [0.04, 0.02, 0.01, 0.005]
+    # (trial kind, walker type): single-determinant kinds and the kinds that keep their own intermediates in
+    # ham_data (the AD family), prepared in the driver's order: measurement first, then propagation
     cases = [("rhf", "restricted", 3, (1, 1), 1, False), ("uhf", "unrestricted", 3, (2, 1), 2, True),
+             ("CISD", "restricted", 3, (1, 1), 1, False),
              ("uhf", "unrestricted", 3, (1, 1), 1, True), ("noci", "unrestricted", 3, (1, 1), 2, True),
              ("rhf", "restricted", 3, (2, 2), 2, False), ("ghf", "unrestricted", 3, (2, 1), 1, True),
+             ("multislater", "unrestricted", 3, (1, 1), 1, True),
              ("uhf", "unrestricted", 4, (2, 1), 3, True)]
     if ctx.tier == "quick":
-        cases = cases[:2] + rng.sample(cases[2:6], 2)
+        cases = cases[:3] + rng.sample(cases[3:8], 2)
     stats = []
     evals = 0
     for tk, wt, norb, ne, nchol, spin_dep in cases:
@@ -165,7 +169,7 @@ def run(ctx):
     evals += degenerate
     ctx.cov["evaluations"] = evals
     ctx.cov["distinct_nontrivial"] = len(stats) * len(ladder) + degenerate
-    ctx.cov["rule"] = ("trial kinds usable for propagation (rhf+restricted, uhf/noci/ghf+unrestricted), h0, symmetric h1 per spin (spin-dependent for "
+    ctx.cov["rule"] = ("trial kinds usable for propagation (rhf/CISD+restricted, uhf/noci/ghf/multislater+unrestricted; intermediates built in the driver's order), h0, symmetric h1 per spin (spin-dependent for "
                        "unrestricted), 1-3 symmetric Cholesky matrices, arbitrary symmetric rdm1 for the mean-field shift, complex non-orthonormal walker, "
                        "random E_shift; fields = tensor Gauss-Hermite nodes (8-10 per dimension); dt ladder 0.04..0.005; residual on the full Fock space")
     ctx.cov["samples"] = [json.dumps(stats[0])[:600] if stats else "-"]
